@@ -23,6 +23,7 @@ THEOREMS = [
     "PorepyVerif.C12.tpfa_conservative",
     "PorepyVerif.C12.tpfa_const_zero_flux",
     "PorepyVerif.C12.tpfa_Mmatrix",
+    "PorepyVerif.C12.tpfa_thalf_pos_diagK",
     "PorepyVerif.C12.tpfa_exact_Korth",
     "PorepyVerif.C12.tpfa_exact_Korth_dirichlet",
     "PorepyVerif.C12.tpfa_exact_neumann",
@@ -184,9 +185,10 @@ def gen_case(rng, tier):
         for a in range(3):
             xs = sorted({Fraction(float(x)) for x in g0.nodes[a]})
             hmin.append(min((q - p for p, q in zip(xs, xs[1:])), default=Fraction(1)))
+        hglob = min(hmin[:dim])
         k = rng.randint(1, nn)
         for i in sorted(rng.sample(range(nn), k)):
-            d = [hmin[a] * Fraction(rng.randint(-8, 8), 64) if a < dim else Fraction(0) for a in range(3)]
+            d = [hglob * Fraction(rng.randint(-8, 8), 64) if a < dim else Fraction(0) for a in range(3)]
             case["perturb"].append([i] + [frac(x) for x in d])
     # tensor
     nc = int(g0.num_cells)
@@ -233,6 +235,13 @@ def gen_case(rng, tier):
     case["frac_dir"] = kind == "frac" and rng.random() < 0.25  # allow 'dir' to land on fracture faces
     case["vsd"] = rng.choice([None, None, 1, 2, 3])
     case["mpfa"] = rng.random() < (0.8 if not big else 0.35)
+    if case["perturb"]:
+        try:  # a perturbation that inverts a cell is not an input of interest: fall back to the unperturbed grid
+            g = _build(case)[0]
+            if not np.all(g.cell_volumes > 0):
+                raise ValueError("non-positive cell volume")
+        except ValueError:
+            case["perturb"] = []
     return case
 
 
@@ -564,6 +573,9 @@ def oracle(case):
                 return {"what": f"affine pressure on a K-orthogonal grid: {where} face {f} flux {q[f]!r}, exact {exact[f]!r}", "key": f"linear-exact-{where.lower()}"}
             pb = bpc @ p + bpf @ vals
             ext = np.setdiff1d(bf, np.nonzero(bc.is_internal)[0])
+            if ext.size and not np.all(np.isfinite(pb[ext])):
+                f = int(ext[~np.isfinite(pb[ext])][0])
+                return {"what": f"K-orthogonal grid (positive half transmissibilities): reconstructed boundary pressure on face {f} is {pb[f]!r}", "key": "bound-pressure-not-finite"}
             if ext.size and np.abs(pb - pf)[ext].max() > 1e-9 * max(1.0, np.abs(pf).max()) * max(1.0, np.abs(bpf.data).max()):
                 f = int(ext[np.abs(pb - pf)[ext].argmax()])
                 return {"what": f"affine pressure on a K-orthogonal grid: reconstructed boundary pressure {pb[f]!r} on face {f}, exact {pf[f]!r}", "key": "linear-exact-bound-pressure"}
@@ -623,4 +635,3 @@ def stats(cases, impl_outs):
             "skipped_degenerate": _skipped_degenerate[0]}
 
 
-DISABLED = True
